@@ -335,9 +335,73 @@ func overEqualPlain(f *failer, outer any) {
 	}
 }
 
+// fluent calls on EMPTY derived containers, and fluent calls that have nothing to do (Clear of an empty container, Unset of a missing
+// key, Delete with no index, Add with no value): they still answer the registered value
+func emptyFluent(f *failer) {
+	ml, ml2, mo, mo2 := newMyList(), newMyList2(), newMyObj(), newMyObj2()
+	type call struct {
+		name string
+		got  any
+		want any
+	}
+	calls := []call{
+		{"List.Clear on an empty derived list", ml.Clear(), ml}, {"List.Clear().Clear()", ml.Clear().Clear(), ml}, {"List.Add() with no value", ml.Add(), ml},
+		{"List.Delete() with no index", ml.Delete(), ml}, {"List.Reverse on an empty derived list", ml.Reverse(), ml}, {"List.ForEach on an empty derived list", ml.ForEach(func(int, any) {}), ml},
+		{"List.ForEachAsync on an empty derived list", ml.ForEachAsync(func(int, any) {}), ml}, {"List.Clear on an empty two-level derived list", ml2.Clear(), ml2},
+		{"Object.Clear on an empty derived object", mo.Clear(), mo}, {"Object.Clear().Clear()", mo.Clear().Clear(), mo}, {"Object.Unset of a missing key", mo.Unset("nope"), mo},
+		{"Object.Unset() with no key", mo.Unset(), mo}, {"Object.Set() with no pair", mo.Set(), mo}, {"Object.ForEach on an empty derived object", mo.ForEach(func(string, any) {}), mo},
+		{"Object.ForEachAsync on an empty derived object", mo.ForEachAsync(func(string, any) {}), mo}, {"Object.Clear on an empty two-level derived object", mo2.Clear(), mo2},
+		{"Object.Set then Unset then Clear", mo2.Set("a", 1).Unset("a").Clear(), mo2}, {"List.Add then Pop then Clear", ml2.Add(1).Pop().Clear(), ml2},
+	}
+	for _, c := range calls {
+		if c.got != c.want {
+			f.fail("%s returned %T, not the registered derived value %T", c.name, c.got, c.want)
+		}
+	}
+}
+
+// a stored derived value reaches the callbacks of the async iteration as the identical value too
+func asyncRetrieval(f *failer, outer any) {
+	hl := at.NewList(0, outer, "x")
+	ho := at.NewObject("d", outer, "s", 1)
+	var mu sync.Mutex
+	hl.ForEachAsync(func(i int, x any) {
+		if i == 1 && x != outer {
+			mu.Lock()
+			f.fail("List.ForEachAsync handed the callback %T instead of the stored derived value %T", x, outer)
+			mu.Unlock()
+		}
+	})
+	ho.ForEachAsync(func(k string, x any) {
+		if k == "d" && x != outer {
+			mu.Lock()
+			f.fail("Object.ForEachAsync handed the callback %T instead of the stored derived value %T", x, outer)
+			mu.Unlock()
+		}
+	})
+	hl.ForEachValue(func(x any) {
+		switch x.(type) {
+		case at.List, at.Object:
+			if x != outer {
+				f.fail("List.ForEachValue handed the callback %T instead of the stored derived value %T", x, outer)
+			}
+		}
+	})
+	ho.ForEachValue(func(x any) {
+		switch x.(type) {
+		case at.List, at.Object:
+			if x != outer {
+				f.fail("Object.ForEachValue handed the callback %T instead of the stored derived value %T", x, outer)
+			}
+		}
+	})
+}
+
 func storedChecks(f *failer, outer any, isObj bool) {
 	defer innerLevelsStored(f, outer)
 	defer overEqualPlain(f, outer)
+	defer asyncRetrieval(f, outer)
+	defer emptyFluent(f)
 	// a mutator that panics (an invalid index in a multi-index Delete, Insert/Replace out of range, Set with an odd count) leaves
 	// the stored derived values where they are: the identical outer value is still handed back
 	func() {
